@@ -175,6 +175,12 @@ func (msg MsgInitiateTokenWithdrawal) Validate(ac address.Codec) error {
 		return ErrInvalidAmount
 	}
 
+	// L1 verifies the withdrawal leaf with the amount as a 64-bit integer; a
+	// larger amount would be burnt here but could never be finalized there
+	if !msg.Amount.Amount.IsUint64() {
+		return ErrInvalidAmount.Wrap("amount must fit in 64 bits")
+	}
+
 	return nil
 }
 
